@@ -112,6 +112,9 @@ def run_check(prop, tier, base_seed, jobs=None, budget_s=None, runs=None, quiet=
     kf_lines, violations, harness_errors = [], [], []
     stale = []
     kf_index = dict((k["id"], k) for k in kf_all)
+    for k in kf_all:
+        for alias in k.get("signatures") or []:
+            kf_index.setdefault(alias, k)
     # -- 1. replay the findings of this property
     for k in kf_all:
         if prop not in k.get("property", []):
@@ -156,6 +159,7 @@ def run_check(prop, tier, base_seed, jobs=None, budget_s=None, runs=None, quiet=
     # -- 3. classify
     agg = {}
     kf_counts = {}
+    kf_first = {}
     sigs = set()
     states = set()
     samples = []
@@ -177,6 +181,7 @@ def run_check(prop, tier, base_seed, jobs=None, budget_s=None, runs=None, quiet=
         elif r["outcome"] == "kf":
             k = r["kf"]["kf"]
             kf_counts[k] = kf_counts.get(k, 0) + 1
+            kf_first.setdefault(k, r)
         if r.get("nontrivial") and r.get("sig"):
             sigs.add(r["sig"])
         if r.get("sample") is not None and len(samples) < 3 and r.get("nontrivial"):
@@ -188,9 +193,27 @@ def run_check(prop, tier, base_seed, jobs=None, budget_s=None, runs=None, quiet=
     for k, n in sorted(kf_counts.items()):
         ent = kf_index.get(k)
         if ent is None or ent["status"] != "open":
-            violations.append({"seed": None, "violation": {"prop": prop, "clause": "known_finding_unlisted",
-                                                           "msg": "signature %s matched but no open entry lists it" % k,
-                                                           "tags": []}, "case": None})
+            if ent is not None and ent["status"] == "fixed":
+                msg = "the finding %s, repaired by %s, has returned: %s" % (ent["id"], ent.get("commit"), ent["what_fails"][:300])
+                clause = "fixed_finding_returned"
+            else:
+                msg, clause = "signature %s matched but no open entry lists it" % k, "known_finding_unlisted"
+            r0 = dict(kf_first.get(k) or {})
+            rpath = None
+            if r0.get("seed") is not None and r0.get("case") is None:
+                try:        # (cases of known-finding runs are not shipped back by the workers)
+                    r0["case"] = P.evaluate(r0["seed"], tier).get("case")
+                except Exception:  # noqa
+                    pass
+            if r0.get("case") is not None:
+                r0["case"] = dict(r0["case"], kf_strict=True)
+                os.makedirs(REPLAYS, exist_ok=True)
+                rpath = os.path.join(REPLAYS, "%s-%s.json" % (prop, r0.get("seed")))
+                with open(rpath, "w") as f:
+                    json.dump({"property": prop, "clause": clause, "seed": r0.get("seed"), "tier": tier, "tags": [], "kf": k,
+                               "violation": {"message": msg, "step": None}, "case": r0["case"]}, f, indent=1, default=str)
+            violations.append({"seed": r0.get("seed"), "violation": {"prop": prop, "clause": clause, "msg": msg, "tags": []},
+                               "case": None, "replay_path": rpath})
         elif prop in ent["property"]:
             line = "KNOWN-FINDING: property=%s %s: %s" % (prop, k, ent["what_fails"])
             if line not in kf_lines:
@@ -324,6 +347,13 @@ def main(argv):
         res = replay_file(a.replay)
         if res["outcome"] == "kf":
             vi = res["violation"]
+            ents = [k for k in load_kf() if vi.get("kf") in [k["id"]] + list(k.get("signatures") or [])]
+            if not any(k["status"] == "open" for k in ents):
+                # the signature of a finding that is not (or no longer) listed as open: a violation
+                print("VIOLATION property=%s replay=%s" % (vi["prop"], a.replay))
+                print("  clause=%s signature %s (%s): %s" % (vi["clause"], vi.get("kf"),
+                                                             "repaired earlier, has returned" if ents else "not listed", vi["msg"][:400]))
+                return 1
             print("KNOWN-FINDING: property=%s %s (clause %s): %s" % (vi["prop"], vi.get("kf"), vi["clause"], vi["msg"][:400]))
             return 0
         if res["outcome"] in ("violation", "kf"):
